@@ -545,7 +545,9 @@ def check_histories(out, spec, fmt, opts, rng, stats, scratch):
       after-output-save         a save to another output=, then two saves to the resource's own URI"""
     from pyecore.resources import ResourceSet, URI
     from pyecore.resources.json import JsonResource
-    uu = opts['use_uuid']
+    # fresh random ids (own resource or the cross-referenced one in uuid mode) make two equal models differ
+    uu = opts['use_uuid'] or (spec['kind'] == 'instance' and spec['ext_uuid'])
+    own_uu = opts['use_uuid']
 
     def record(name, ok):
         stats['history'][name] = stats['history'].get(name, 0) + 1
@@ -569,11 +571,11 @@ def check_histories(out, spec, fmt, opts, rng, stats, scratch):
         name = 'after-failed-save:' + kind
         extra = {'scenario': 'failed-save-then-repair', 'kind': kind, 'position': pos}
         with tempfile.TemporaryDirectory(dir=scratch) as da, tempfile.TemporaryDirectory(dir=scratch) as db:
-            a = build(spec, da, fmt, uu, opts.get('indent'))
+            a = build(spec, da, fmt, own_uu, opts.get('indent'))
             plant(a, spec, kind, upos(a))()
             ea = do_save(a, fmt, opts)
             ref = read(a.path)
-            b = build(spec, db, fmt, uu, opts.get('indent'))
+            b = build(spec, db, fmt, own_uu, opts.get('indent'))
             undo = plant(b, spec, kind, upos(b))
             e0 = do_save(b, fmt, opts)
             undo()
@@ -595,7 +597,7 @@ def check_histories(out, spec, fmt, opts, rng, stats, scratch):
                      f'the same model without the failed save: {_firstdiff(b1, ref)}', extra)
     # --- (ii) loaded resources
     with tempfile.TemporaryDirectory(dir=scratch) as d:
-        f = build(spec, d, fmt, uu, opts.get('indent'))
+        f = build(spec, d, fmt, own_uu, opts.get('indent'))
         if spec['kind'] == 'instance' and f.ext.contents:
             try:
                 f.ext.save()
@@ -652,7 +654,7 @@ def check_histories(out, spec, fmt, opts, rng, stats, scratch):
                      'the first had been saved twice): ' + _firstdiff(outs[0], outs[2]), extra)
     # --- (iii) a save elsewhere first
     with tempfile.TemporaryDirectory(dir=scratch) as d:
-        b = build(spec, d, fmt, uu, opts.get('indent'))
+        b = build(spec, d, fmt, own_uu, opts.get('indent'))
         other = os.path.join(d, 'elsewhere.' + fmt)
         e0 = do_save(b, fmt, opts, other)
         bo = read(other)
